@@ -251,7 +251,8 @@ def run(ctx):
     if ctx.quick:
         plan = [('step', (3, 2, 1, 2), 1), ('fast', (3, 2, 0, 2), 2)]
     else:
-        plan = [('step', (4, 3, 1, 2), 1), ('step', (3, 3, 2, 3), 1), ('fast', (3, 3, 0, 2), 2), ('fast', (3, 2, 1, 2), 2)]
+        plan = [('step', (4, 3, 1, 2), 1), ('step', (3, 3, 1, 3), 1), ('step', (3, 2, 2, 2), 1), ('fast', (3, 3, 0, 2), 2),
+                ('fast', (3, 2, 1, 2), 2)]
     samples = []
     for kind, (K, N, R, F), m in plan:
         fam = list(mt.step_family(K, N, R, F)) if kind == 'step' else list(mt.fast_family(K, N, m, R, F))
